@@ -13,7 +13,10 @@ import (
 // ConfigOrder (property C39): from src/core/config.go
 //   - the config file search order (defaultGlobalConfigFiles, defaultConfigFiles and the constants they use),
 //   - the reads ReadConfigFiles does for every file name (the file, then file+"."+profile for every profile),
-//   - the slice defaults installed after reading (setDefault calls / setBuildPath) and
+//   - the slice defaults installed after reading (setDefault calls),
+//   - the computed default of setBuildPath (its body is translated statement by statement: fallback, the
+//     (option, element) pairs that switch to strings.Split(os.Getenv(var), sep), the final setDefault),
+//   - `if !config.A.B { config.C.D = append(config.C.D, "x") }` (an element appended to one option when another is false) and
 //   - the literal defaults of DefaultConfiguration().
 // Every statement of the two order functions and of the read loop must match one of the shapes below.
 
@@ -140,7 +143,7 @@ func (t *cfgTrans) repoOrder() []string {
 }
 
 // the statements of ReadConfigFiles: the read loop, then the slice defaults
-func (t *cfgTrans) readConfigFiles() (reads []string, late []string, lateBazel []string, derived []string) {
+func (t *cfgTrans) readConfigFiles() (reads []string, late []string, lateBazel []string, derived []string, computed []string, appended []string) {
 	fd := findFunc(t.file, "", "ReadConfigFiles")
 	if len(fd.Type.Params.List) != 3 {
 		failShape("ReadConfigFiles: expected 3 parameters")
@@ -213,9 +216,7 @@ func (t *cfgTrans) readConfigFiles() (reads []string, late []string, lateBazel [
 				if len(call.Args) != 3 {
 					failShape("setBuildPath: expected 3 arguments")
 				}
-				e := "(" + coqString(t.fieldName(call.Args[0], true)) + ", " + defaultPath + ")"
-				late = append(late, e)
-				lateBazel = append(lateBazel, e)
+				computed = append(computed, t.setBuildPath(call, defaultPath))
 			}
 		case *ast.IfStmt:
 			// if config.A.B != "" { config.C.D = filepath.Join(config.A.B, "x", "y") }  : an option computed from another one
@@ -225,6 +226,13 @@ func (t *cfgTrans) readConfigFiles() (reads []string, late []string, lateBazel [
 					parts = append(parts, strings.Trim(p, `"`))
 				}
 				derived = append(derived, fmt.Sprintf("(%s, %s, %s)", coqString(strings.ToLower(m[1]+"."+m[2])), coqString(strings.ToLower(m[3]+"."+m[4])), coqStringList(parts)))
+				continue
+			}
+			if m := reAppendIfFalse.FindStringSubmatch(t.text(x)); m != nil {
+				if m[3] != m[5] || m[4] != m[6] {
+					failShape("ReadConfigFiles: append to a different field than the one assigned: %s", t.text(x))
+				}
+				appended = append(appended, fmt.Sprintf("(%s, %s, %s)", coqString(strings.ToLower(m[1]+"."+m[2])), coqString(strings.ToLower(m[3]+"."+m[4])), coqString(m[7])))
 				continue
 			}
 			if t.text(x.Cond) != "usingBazelWorkspace" {
@@ -256,7 +264,70 @@ func (t *cfgTrans) readConfigFiles() (reads []string, late []string, lateBazel [
 	if len(late) == 0 {
 		failShape("ReadConfigFiles: no setDefault call found")
 	}
-	return reads, late, lateBazel, derived
+	return reads, late, lateBazel, derived, computed, appended
+}
+
+var reAppendIfFalse = regexp.MustCompile(`^if !config\.(\w+)\.(\w+) \{ config\.(\w+)\.(\w+) = append\(config\.(\w+)\.(\w+), "([^"]*)"\) \}$`)
+
+// setBuildPath translates the body of setBuildPath, instantiated at its call site, into one entry
+//   (target, [(trigger option, element); ...], env var, separator, fallback).
+// Recognised body, in this order and nothing else:
+//   v := DefaultPath
+//   for _, i := range <param> { if i == "<elem>" { v = strings.Split(os.Getenv("<VAR>"), "<sep>") } }     (one or more)
+//   setDefault(<first param>, v...)
+func (t *cfgTrans) setBuildPath(call *ast.CallExpr, defaultPath string) string {
+	fd := findFunc(t.file, "", "setBuildPath")
+	params := []string{}
+	for _, f := range fd.Type.Params.List {
+		for _, n := range f.Names {
+			params = append(params, n.Name)
+		}
+	}
+	if len(params) != len(call.Args) || len(params) < 2 {
+		failShape("setBuildPath: %d parameters but %d arguments at the call site", len(params), len(call.Args))
+	}
+	arg := map[string]string{}
+	for i, p := range params[1:] {
+		arg[p] = t.fieldName(call.Args[i+1], false)
+	}
+	target := t.fieldName(call.Args[0], true)
+	stmts := fd.Body.List
+	if len(stmts) < 3 {
+		failShape("setBuildPath: body too short: %s", t.text(fd.Body))
+	}
+	m := regexp.MustCompile(`^(` + identRe + `) := DefaultPath$`).FindStringSubmatch(t.text(stmts[0]))
+	if m == nil {
+		failShape("setBuildPath: first statement is not `v := DefaultPath`: %s", t.text(stmts[0]))
+	}
+	v := regexp.QuoteMeta(m[1])
+	reFor := regexp.MustCompile(`^for _, (` + identRe + `) := range (` + identRe + `) \{ if (` + identRe + `) == "([^"]*)" \{ ` + v +
+		` = strings\.Split\(os\.Getenv\("([A-Z_]+)"\), "(.)"\) \} \}$`)
+	triggers, envVar, sep := []string{}, "", ""
+	for _, st := range stmts[1 : len(stmts)-1] {
+		f := reFor.FindStringSubmatch(t.text(st))
+		if f == nil {
+			failShape("setBuildPath: statement of unknown shape: %s", t.text(st))
+		}
+		if f[1] != f[3] {
+			failShape("setBuildPath: loop variable and compared variable differ: %s", t.text(st))
+		}
+		field, ok := arg[f[2]]
+		if !ok {
+			failShape("setBuildPath: loop over %s, which is not a slice parameter", f[2])
+		}
+		if envVar != "" && (envVar != f[5] || sep != f[6]) {
+			failShape("setBuildPath: loops read different variables/separators")
+		}
+		envVar, sep = f[5], f[6]
+		triggers = append(triggers, "("+coqString(field)+", "+coqString(f[4])+")")
+	}
+	if len(triggers) == 0 {
+		failShape("setBuildPath: no loop over a parameter found")
+	}
+	if last := t.text(stmts[len(stmts)-1]); last != "setDefault("+params[0]+", "+m[1]+"...)" {
+		failShape("setBuildPath: last statement is not `setDefault(%s, %s...)`: %s", params[0], m[1], last)
+	}
+	return fmt.Sprintf("(%s, [%s], %s, %s, %s)", coqString(target), strings.Join(triggers, "; "), coqString(envVar), coqString(sep), defaultPath)
 }
 
 var reDerive = regexp.MustCompile(`^if config\.(\w+)\.(\w+) != "" \{ config\.(\w+)\.(\w+) = filepath\.Join\(config\.(\w+)\.(\w+), ("[^"]*"(?:, "[^"]*")*)\) \}$`)
@@ -360,7 +431,7 @@ func init() {
 			}
 		}
 		global, repo := t.globalOrder(), t.repoOrder()
-		reads, late, lateBazel, derived := t.readConfigFiles()
+		reads, late, lateBazel, derived, computed, appended := t.readConfigFiles()
 		sep := ";\n   "
 		return genHeader +
 			"(* one entry per element of the search order.  SrcEnvDirs var sep name: every absolute element of $var split at sep, joined with name;\n" +
@@ -373,11 +444,17 @@ func init() {
 			"(* what ReadConfigFiles reads for one file name, in order; ReadProfiles sep = for every profile, in order, name ++ sep ++ profile *)\n" +
 			"Inductive cfg_read := ReadFile | ReadProfiles (sep : string).\n" +
 			"Definition per_file_reads : list cfg_read := [" + strings.Join(reads, "; ") + "].\n" +
-			"(* setDefault / setBuildPath calls after the read loop (usingBazelWorkspace = false, resp. true) *)\n" +
+			"(* setDefault calls after the read loop (usingBazelWorkspace = false, resp. true) *)\n" +
 			"Definition late_defaults : list (string * list string) :=\n  [" + strings.Join(late, sep) + "].\n" +
 			"Definition late_defaults_bazel : list (string * list string) :=\n  [" + strings.Join(lateBazel, sep) + "].\n" +
 			"(* if config.<src> != \"\" { config.<dst> = filepath.Join(config.<src>, parts...) } after the read loop *)\n" +
 			"Definition derived_options : list (string * string * list string) := [" + strings.Join(derived, "; ") + "].\n" +
+			"(* setBuildPath(&config.<target>, config.<trigger>...) after the read loop, body of setBuildPath instantiated:\n" +
+			"   (target, [(trigger option, element)], env var, separator, fallback): setDefault(&target, v...) where v = strings.Split(os.Getenv(var), sep)\n" +
+			"   if some trigger option lists its element, else the fallback *)\n" +
+			"Definition computed_defaults : list (string * list (string * string) * string * string * list string) :=\n  [" + strings.Join(computed, sep) + "].\n" +
+			"(* if !config.<cond> { config.<dst> = append(config.<dst>, elem) } after the read loop: (cond, dst, elem) *)\n" +
+			"Definition appended_options : list (string * string * string) := [" + strings.Join(appended, "; ") + "].\n" +
 			"(* DefaultConfiguration(): None = right-hand side is not a literal *)\n" +
 			"Definition init_defaults : list (string * option (list string)) :=\n  [" + strings.Join(initDefaults(t), sep) + "].\n"
 	}
